@@ -10,6 +10,7 @@ LEVEL = 'model_checking'
 PREFIX = (('f',), ('f', 's'))
 LABELS = ('e', 'a', 'b', 'c', 'd')
 LABELS2 = ('e', 'a', 'g', 'y')     # incl. transactions / rewards paying a never-seen key twice
+LABELS4 = ('q', 'r', 'w', 'e')     # two outputs of one transaction / reward with the same amount and key, the later one spent
 LABELS3 = ('z', 'k', 'e', 'i')     # a zero-value reward output to a key that then spends all its positive outputs; a
 #                                    transaction whose inputs alternate between owners
 
@@ -182,6 +183,9 @@ def run(ctx):
     have = set(hists)
     levels3 = ledger.enumerate_histories(uni, PREFIX, LABELS3, depth - 1)
     hists += [h for lv in levels3 for h in lv if h not in have]
+    have = set(hists)
+    levels4 = ledger.enumerate_histories(uni, PREFIX, LABELS4, depth - 1)
+    hists += [h for lv in levels4 for h in lv if h not in have]
     # long chains (persistent maps change their layout beyond 32 entries): 36 funding blocks, then the split, spends of early
     # outputs, a side branch off height 20 that overtakes or not
     base = tuple(('f',) * k for k in range(1, 37))
@@ -221,6 +225,7 @@ def run(ctx):
         'exhaustive': True, 'bounds': {'blocks_beyond_prefix': depth, 'labels': list(LABELS),
                                        'second_menu': {'labels': list(LABELS2), 'blocks_beyond_prefix': depth - 1},
                                        'third_menu': {'labels': list(LABELS3), 'blocks_beyond_prefix': depth - 1},
+                                       'fourth_menu': {'labels': list(LABELS4), 'blocks_beyond_prefix': depth - 1},
                                        'long_chains': '3 histories of 40-43 blocks (36 funding blocks, split, spends of early outputs, side branch off height 20)'},
         'rule': "BFS over arrival histories (any stored parent x payload menu), de-duplicated on (stored set, head); "
                 "each kept history is driven through add_block and add_block_no_validation; every stored block's "
